@@ -65,6 +65,9 @@ Depth2 == Flat([p \in 1..NForms |-> Flat([k \in 1..Arity(p) |->
 LeafParents == <<3, 11, 20, 21, 24, 34, 35>>
 LeafExprs == Leaves \o Flat([k \in DOMAIN LeafParents |-> [l \in DOMAIN Leaves |-> Form(LeafParents[k], Leaves[l], Leaves[l], Leaves[l])]])
             \o << [op |-> "set", els |-> <<>>], [op |-> "rec", kv |-> <<>>],
+                  Un("neg", [op |-> "access", a |-> Lc, attr |-> "name"]), Un("neg", [op |-> "access", a |-> Lc, attr |-> "if"]),
+                  Un("neg", Bin("contains", Lc, La)), Un("neg", Un("neg", [op |-> "ext", fn |-> "toDate", args |-> <<Lc>>])),
+                  Bin("sub", Lc, Un("neg", Un("isEmpty", V(VInt(0))))),
                   Un("not", Un("not", Un("neg", Un("neg", La)))), Un("neg", V(VInt(5))), Un("neg", V(VInt(-5))),
                   Bin("sub", V(VInt(-5)), V(VInt(-5))), Bin("sub", Bin("sub", La, Lb), Lc), Bin("sub", La, Bin("sub", Lb, Lc)),
                   Bin("and", Bin("and", La, Lb), Lc), Bin("and", La, Bin("and", Lb, Lc)), Bin("or", Bin("and", La, Lb), Bin("and", Lb, Lc)),
@@ -185,10 +188,19 @@ ValueExprs ==
             [op |-> "ext", fn |-> "toDays", args |-> <<v>>], Un("neg", v), Bin("sub", V(VInt(1)), v),
             [op |-> "set", els |-> <<v, v>>], [op |-> "rec", kv |-> <<[key |-> "a b", val |-> v]>>],
             [op |-> "like", a |-> v, pat |-> <<-1>>], Bin("in", v, v), [op |-> "is", a |-> v, ty |-> <<"U">>] >>])
-AnnoPolicies == [s \in DOMAIN StrB |->
+\* attribute names and record keys around the border of what may be written as an identifier
+\* (wire names: ~{hex} for characters outside [A-Za-z0-9 _:.-])
+OddNames == << "k ", " k", "k~{a}", "k~{9}", "k~{d}", "k~{2f}~{2f}x", "k~{2f}~{2a}x~{2a}~{2f}", "K", "k1", "_k", "1k", "k-1", "k.k",
+               "k::k", "principal", "permit", "when", "is", "then", "in", "k~{e9}", "~{e9}", "k~{22}", "k~{5c}", "k~{0}" >>
+NameExprs == Flat([i \in DOMAIN OddNames |-> LET n == OddNames[i] IN
+               << [op |-> "access", a |-> Lb, attr |-> n], [op |-> "has", a |-> Lb, attr |-> n],
+                  [op |-> "rec", kv |-> <<[key |-> n, val |-> Lc]>>],
+                  [op |-> "has", a |-> V(VRec([x \in {n, "k"} |-> VInt(1)])), attr |-> n],
+                  [op |-> "access", a |-> [op |-> "rec", kv |-> <<[key |-> n, val |-> Lc], [key |-> "k", val |-> V(VInt(1))]>>], attr |-> "k"] >>])
+AnnoPolicies ==[s \in DOMAIN StrB |->
    [effect |-> "forbid", annos |-> <<[k |-> "id", v |-> StrB[s]], [k |-> "if", v |-> StrB[s] \o StrB[s]]>>,
     principal |-> ScopeAll, action |-> ScopeAll, resource |-> ScopeAll, conds |-> <<>>]]
-MarshalPolicies == Policies \o AnnoPolicies \o [i \in DOMAIN ValueExprs |-> WhenP(ValueExprs[i])]
+MarshalPolicies == Policies \o AnnoPolicies \o [i \in DOMAIN (ValueExprs \o NameExprs) |-> WhenP((ValueExprs \o NameExprs)[i])]
                    \o [i \in DOMAIN TypedExprs |-> WhenP(TypedExprs[i])]
 \* policy sets: ids in lexicographic (byte) order; windows of the universe under every id assignment pattern
 IdOrder == <<"", "A", "B", "a", "a b", "b", "policy1", "policy10", "policy2", "~{e9}">>
@@ -223,7 +235,7 @@ CaseOf(i) ==
   ELSE IF Mode = "marshal"
   THEN IF i <= Len(MarshalPolicies)
        THEN LET p == MarshalPolicies[i] IN
-            [v \in 1..(IF i <= Len(Policies) + Len(AnnoPolicies) + Len(ValueExprs) THEN 3 ELSE 1) |->
+            [v \in 1..(IF i <= Len(Policies) + Len(AnnoPolicies) + Len(ValueExprs) + Len(NameExprs) THEN 3 ELSE 1) |->
                [op |-> "marshal", policy |-> p, via |-> <<"ast", "json", "text">>[v], parts |-> TRUE, envset |-> "S"]]
        ELSE << SetCase(i - Len(MarshalPolicies)) >>
   ELSE IF i <= Len(MutSeeds)
